@@ -64,7 +64,7 @@ def eval_case(spec):
 def run_one(res, spec, opts_name=""):
     feats = list(spec.get("features", []))
     try:
-        v = par.in_child(eval_case, spec)
+        v = par.pristine(eval_case, spec)
     except par.ChildCrash as e:
         res.harness_error("child crash: %s" % e)
         return None
@@ -97,6 +97,7 @@ def run_one(res, spec, opts_name=""):
 def shard(idx, n, tier):
     env.setup_paths()
     import hdl21  # noqa  (imported, never used to build anything in this process)
+    par.server()
     import hypothesis
     from hypothesis import given, settings, HealthCheck, Phase
     res = core.Result()
